@@ -814,10 +814,19 @@ impl Brc20ProgDatabase {
             self.latest_block_number = Some((block_number, block_hash));
         }
 
+        // Highest block ever finalised: it must not be lowered when blocks are mined again after a reorg,
+        // otherwise a later reorg deeper than the kept history would be accepted
+        let max_block_number = self
+            .db_global_values
+            .as_ref()
+            .expect(DB_MUTEX_ERROR)
+            .get(MAX_BLOCK_NUMBER_KEY.to_string())?
+            .and_then(|x| x.parse::<u64>().ok())
+            .map_or(block_number, |x| x.max(block_number));
         self.db_global_values
             .as_mut()
             .expect(DB_MUTEX_ERROR)
-            .set(MAX_BLOCK_NUMBER_KEY.to_string(), block_number.to_string())?;
+            .set(MAX_BLOCK_NUMBER_KEY.to_string(), max_block_number.to_string())?;
 
         self.db_block_number_to_hash
             .as_mut()
